@@ -2,50 +2,32 @@ package main
 
 import (
 	"fmt"
-	"os"
-	"path/filepath"
 
 	"verif/corpus"
-	"verif/mc"
 
-	ot "github.com/go-text/typesetting/font/opentype"
-	"github.com/go-text/typesetting/fontscan"
+	"github.com/go-text/typesetting/font"
+	"github.com/go-text/typesetting/harfbuzz"
+	"github.com/go-text/typesetting/language"
 )
 
 func main() {
-	f := corpus.Get("hb/harfbuzz_reference/in-house/fonts/SimpArabicTest.ttf")
-	ld := corpus.Loaders(f)[0]
-	var tbs []ot.Table
-	for _, t := range ld.Tables() {
-		if raw, err := ld.RawTable(t); err == nil && t != ot.MustNewTag("OS/2") {
-			tbs = append(tbs, ot.Table{Tag: t, Content: raw})
-		}
-	}
-	data := ot.WriteTTF(tbs)
-	root, _ := os.MkdirTemp("/var/tmp", "dbg")
-	defer os.RemoveAll(root)
-	scan := func(dir string) {
-		idx, err := fontscan.VerifScan(nil, fontscan.VerifIndex{}, dir)
-		fmt.Println(err)
-		for _, f := range idx.Files() {
-			for _, fp := range f.Footprints {
-				fmt.Println(filepath.Base(f.Path), fp.Family, len(fp.Scripts), fp.Runes.Len(), mc.DeepHash(&fp.Runes))
+	f := corpus.Get("hb/harfbuzz_reference/in-house/fonts/8339c821814d9bad7c77169332327ad8b0f33c81.ttf")
+	ft := corpus.Fonts(f)[0]
+	fmt.Println("GSUB", len(ft.GSUB.Lookups), "GPOS", len(ft.GPOS.Lookups), "kern", len(ft.Kern))
+	face := font.NewFace(ft)
+	hf := harfbuzz.NewFont(face)
+	for _, text := range [][]rune{{0x627, 0x31}, {0x627, 0x31, 0x34F}} {
+		for _, dir := range []harfbuzz.Direction{harfbuzz.LeftToRight, harfbuzz.RightToLeft} {
+			b := harfbuzz.NewBuffer()
+			b.Props = harfbuzz.SegmentProperties{Direction: dir, Script: language.Arabic}
+			b.Flags = harfbuzz.Bot | harfbuzz.Eot
+			b.AddRunes(text, 0, len(text))
+			b.Shape(hf, nil)
+			fmt.Printf("%U dir %v: ", text, dir)
+			for i, in := range b.Info {
+				fmt.Printf("%d=%d mask%#x +%d | ", in.Glyph, in.Cluster, in.Mask&7, b.Pos[i].XAdvance)
 			}
+			fmt.Println()
 		}
-	}
-	os.MkdirAll(root+"/a", 0o755)
-	os.WriteFile(root+"/a/b_font.ttf", data, 0o644)
-	scan(root + "/a")
-	n := 0
-	for _, p := range corpus.Files() {
-		if len(p.Data) > 64<<10 || n > 12 {
-			continue
-		}
-		n++
-		d := fmt.Sprintf("%s/p%d", root, n)
-		os.MkdirAll(d, 0o755)
-		os.WriteFile(d+"/a_font"+filepath.Ext(p.Name), p.Data, 0o644)
-		os.WriteFile(d+"/b_font.ttf", data, 0o644)
-		scan(d)
 	}
 }
